@@ -602,11 +602,12 @@ def zeroIV : Bytes := List.replicate 16 0
 /-- `utf16.EncodeUTF16LE(s)`: `utf16.Encode([]rune(s))`, then `byte(r)`, `byte(r >> 8)` per unit -/
 def encodeUTF16LE (s : Bytes) : Bytes := (utf16Encode (runesOfString s)).flatMap putLe16
 
-/-- the loop of `DecodeUTF16LE`: `utf16le[i/2] = uint16(b[i]) | uint16(b[i+1])<<8` for i = 0, 2, 4, …;
-    with an odd length the last iteration indexes out of range -/
+/-- the loop of `DecodeUTF16LE`: `utf16le[i/2] = uint16(b[i]) | uint16(b[i+1])<<8` for i = 0, 2, 4, … while
+    `i+1 < len(b)`: a trailing odd byte is not a code unit and is ignored
+    (after `fixes/C07-utf16-odd-length.diff`; before, the last iteration indexed out of range) -/
 def unitsLE : Bytes → Outcome (List UInt16)
   | [] => .ok []
-  | [_] => .panic
+  | [_] => .ok []
   | b0 :: b1 :: rest =>
     match unitsLE rest with
     | .ok us => .ok (le16 b0 b1 :: us)
